@@ -324,6 +324,134 @@ theorem progOk_rejects :
     progOk (.tag b!"a b" [] .nil) = false ∧ progOk (.tag b!"a" [(b!"x\"y", .hole 0)] .nil) = false := by
   decide +kernel
 
+/-! ### the Google Analytics id -/
+
+/-- a Google Analytics id that cannot leave its attribute or its script: no `<`, no `"` -/
+def inertB (g : Str) : Bool := g.all fun b => b != 60 && b != 34
+
+theorem lexRun_inert (st : LState) (h : dataOk st = true) (g : Str) (hg : inertB g = true) :
+    lexRun st g = (st, []) := by
+  have hb : ∀ b ∈ g, b ≠ 60 ∧ b ≠ 34 := by
+    intro b hb
+    have := (List.all_eq_true.mp hg) b hb
+    simpa using this
+  cases st with
+  | data => exact lexRun_data_stay _ fun b hb' => (hb b hb').1
+  | quoted c q =>
+    have hq : q = 34 := by simpa [dataOk] using h
+    subst hq
+    exact lexRun_quoted_stay _ _ _ fun b hb' => (hb b hb').2
+  | rawText e m =>
+    have hm : m = 0 ∧ e.head? = some 60 := by simpa [dataOk] using h
+    obtain ⟨hm0, hhead⟩ := hm
+    subst hm0
+    exact lexRun_rawText_stay _ _ hhead fun b hb' => (hb b hb').1
+  | _ => simp [dataOk] at h
+
+/-- the slots of the id (marked as anchor data in the template) filled with the id's own bytes -/
+def fill (g : Str) : Piece → Piece
+  | .data .anchor _ => .lit g
+  | p => p
+
+theorem runPieces_fill (g : Str) (hg : inertB g = true) (st : LState) (ps : List Piece)
+    (r : LState × List Tok) (h : runPieces st ps = some r) : runPieces st (ps.map (fill g)) = some r := by
+  induction ps generalizing st r with
+  | nil => exact h
+  | cons p ps ih =>
+    cases p with
+    | lit s =>
+      simp only [List.map_cons, fill, runPieces] at h ⊢
+      cases h2 : runPieces (lexRun st s).1 ps with
+      | none => simp [h2] at h
+      | some r2 => rw [ih _ _ h2]; simpa [h2] using h
+    | data e v =>
+      simp only [runPieces] at h
+      split at h
+      · rename_i hok
+        cases e with
+        | anchor =>
+          simp only [List.map_cons, fill, runPieces, lexRun_inert st hok g hg]
+          rw [ih _ _ h]; simp
+        | text => simp only [List.map_cons, fill, runPieces, hok, if_true]; exact ih _ _ h
+        | head => simp only [List.map_cons, fill, runPieces, hok, if_true]; exact ih _ _ h
+        | attr => simp only [List.map_cons, fill, runPieces, hok, if_true]; exact ih _ _ h
+      · simp at h
+
+theorem fmtPieces_fill (g : Str) (f : Str) (args : List Piece) :
+    fmtPieces f (args.map (fill g)) = (fmtPieces f args).map (fill g) := by
+  induction f, args using fmtPieces.induct with
+  | case1 args => simp [fmtPieces]
+  | case2 b args => simp [fmtPieces, fill]
+  | case3 b c t args hb hc ih => simp [fmtPieces, hb, hc, ih, fill]
+  | case4 b c t hb hc a rest ih => simp [fmtPieces, hb, hc, ih]
+  | case5 b c t hb hc ih => simp [fmtPieces, hb, hc, fill] at ih ⊢; exact ih
+  | case6 b c t args hb ih => simp [fmtPieces, hb, ih, fill]
+
+theorem wrapOk_fill (g : Str) (hg : inertB g = true) (T post : List Piece) (h : wrapOk T post = true) :
+    wrapOk (T.map (fill g)) post = true := by
+  unfold wrapOk at h ⊢
+  cases h1 : runPieces .data T with
+  | none => simp [h1] at h
+  | some r => rw [runPieces_fill g hg _ _ _ h1]; simpa [h1] using h
+
+theorem escWith_nil (g : Str) : escWith [] g = g := by
+  induction g with
+  | nil => rfl
+  | cons b t ih =>
+    simp only [escWith] at ih ⊢
+    simp [List.flatMap_cons, escByte, ih]
+
+/-- the page frame with the two slots of the Google Analytics id left open -/
+def gaTemplate : List Piece :=
+  [lit Generated.pageHead] ++ fmtPieces Generated.gaFmt [.data .anchor [], .data .anchor []]
+    ++ tagOpen Generated.pageTitleTag [] ++ [.data .text []] ++ tagClose Generated.pageTitleTag
+    ++ [lit Generated.pageMid]
+
+theorem gaTemplate_ok : wrapOk gaTemplate [lit Generated.pageTail] = true := by decide +kernel
+
+/-- **The Google Analytics assumption of `envOk`, discharged**: the page frame is trusted for every
+    id without `<` and `"` (the id is a command line option, written raw into an attribute and a
+    script) -/
+theorem ga_inert_trusted (g : Str) (hg : inertB g = true) : trusted (mkPage [] .nil g) = true := by
+  cases hge : g with
+  | nil => exact page0_trusted
+  | cons x xs =>
+    rw [← hge]
+    have hne : g.isEmpty = false := by rw [hge]; rfl
+    have hraw : rawGaId g = g := by
+      unfold rawGaId
+      have : Generated.gaEscTable = [] := rfl
+      rw [this, escWith_nil]
+    have hpre : (Comp.page [] g .nil footerRow).pre = gaTemplate.map (fill g) := by
+      simp only [Comp.pre, gaTemplate, gaPieces, hne, hraw, List.map_append, ← fmtPieces_fill]
+      rfl
+    show (wrapOk (Comp.page [] g .nil footerRow).pre (Comp.page [] g .nil footerRow).post
+        && trusted Comp.nil && trusted footerRow) = true
+    rw [hpre]
+    have := wrapOk_fill g hg gaTemplate [lit Generated.pageTail] gaTemplate_ok
+    simp only [Comp.post]
+    rw [this]
+    simp [trusted, constants_trusted.2.2.2.2.2]
+
+theorem envOk_of_inert (ρ : Env) (hk : ρ.kids.all trusted = true) (hl : ρ.lists.all (·.all trusted) = true)
+    (hr : ρ.raws.all (fun kv => leafOk [lit kv.2]) = true) (hg : inertB ρ.ga = true) : envOk ρ = true := by
+  simp [envOk, hk, hl, hr, ga_inert_trusted _ hg]
+
+/-- a program instance without children and raw holes needs no assumption at all beyond an inert
+    Google Analytics id: whatever the strings, well nested and of one skeleton -/
+theorem page_structure_leaf (name : String) (p : Prog) (hmem : (name, p) ∈ Generated.pagePrograms)
+    (strs strs' : List Str) (ints : List Int) (bools : List Bool) (ga : Str) (hg : inertB ga = true)
+    (he : strs'.map List.isEmpty = strs.map List.isEmpty) :
+    wellNested (render (eval { strs := strs', ints := ints, bools := bools, ga := ga } p)) = true ∧
+    skeleton (render (eval { strs := strs', ints := ints, bools := bools, ga := ga } p)) =
+      skeleton (render (eval { strs := strs, ints := ints, bools := bools, ga := ga } p)) :=
+  page_structure_preserved name p hmem _ _ (envOk_of_inert _ rfl rfl rfl hg) ⟨he, rfl, rfl, rfl, rfl, rfl, rfl⟩
+
+/-- the assumption of `envOk` on a raw hole holds for every value without `<` (ages: digits, `y`,
+    `m`, `~`, `unknown`) -/
+theorem raw_hole_inert (v : Str) (h : ∀ b ∈ v, b ≠ 60) : leafOk [lit v] = true := by
+  simp [leafOk, runPieces, lit, lexRun_data_stay _ h, chk]
+
 /-! ### programs all the way down -/
 
 /-- a page assembled from regenerated programs all the way down: the children of every program
